@@ -29,6 +29,10 @@ var c3Lead = []string{"appending", "available_externally", "common", "internal",
 	// 63–68: the return attributes that are bare keywords (model: `kRetAttr`)
 	"inreg", "noalias", "nonnull", "noundef", "signext", "zeroext"}
 
+// the parameter attributes that are bare keywords, in the order of the model's list `Core3.kParamAttr` (allocalign / allocptr are outside the fragment)
+var c3ParamAttr = []string{"immarg", "inreg", "nest", "noalias", "nocapture", "nofree", "nonnull", "noundef", "readnone", "readonly", "returned", "signext", "swiftasync",
+	"swifterror", "swiftself", "writeonly", "zeroext"}
+
 // the function attributes that are bare keywords, in the order of the model's list `Core3.kFuncAttr`
 var c3FuncAttr = []string{"alwaysinline", "argmemonly", "builtin", "cold", "convergent", "disable_sanitizer_instrumentation", "fn_ret_thunk_extern", "hot",
 	"inaccessiblememonly", "inaccessiblemem_or_argmemonly", "inlinehint", "jumptable", "minsize", "mustprogress", "naked", "nobuiltin", "nocf_check", "nocallback",
@@ -422,10 +426,20 @@ func core3Prepare(named map[string]*types.StructType, a []string) (*ir.Func, fun
 	key := func(i c3ident) c3ident { return i }
 	if a[2] != "-" {
 		for _, ps := range strings.Split(a[2], "|") {
-			f := strings.SplitN(ps, "~", 2)
+			// `<ty>~<ident>[~<i>,<i>…]`: the third field lists the parameter attributes as positions in the model's list `kParamAttr`
+			f := strings.SplitN(ps, "~", 3)
 			t := (&tyParser{s: f[0], named: named}).ty()
 			id := c3Ident(f[1])
 			p := ir.NewParam(id.name, t)
+			if len(f) == 3 && f[2] != "" {
+				for _, as := range strings.Split(f[2], ",") {
+					i, err := strconv.Atoi(as)
+					if err != nil || i < 0 || i >= len(c3ParamAttr) {
+						panic("harness: bad parameter attribute position " + as)
+					}
+					p.Attrs = append(p.Attrs, asmenum.ParamAttrFromString(c3ParamAttr[i]))
+				}
+			}
 			params = append(params, p)
 			locals[key(id)] = p
 		}
